@@ -12,6 +12,11 @@ func init() {
 }
 
 type c03Case struct {
+	Model struct {
+		Res string `json:"res"`
+		Cls string `json:"cls"`
+		Tok int    `json:"tok"`
+	} `json:"model"`
 	Base string   `json:"base"`
 	Kind string   `json:"kind"`
 	Doc  []Tok    `json:"doc"`
@@ -62,6 +67,13 @@ func c03Replay(args []string) *Result {
 			}
 			rd := renderTokens(cs.Doc, false, lo)
 			o := buildText(rd.text)
+			// recorded deviation: an error raised while a PASTE is expanded is re-located at the outermost
+			// PASTE (the specification's Macro.tla predicts that line); the property asks for the offending directive
+			if !selftest && cs.X.Res == "err" && cs.Model.Cls == cs.X.Cls && cs.Model.Tok != cs.X.Tok && o.Res == "err" &&
+				classifyBuildErr(o.Msg) == cs.X.Cls && o.Line == expectedLine(rd, cs.Doc, cs.Model.Tok, "kw") {
+				res.mismatch("c03:error-relocated-at-outer-paste", fmt.Sprintf("fault %s on token %d (inside a MACRO body) is reported on line %d, the line of the outermost PASTE (token %d)", cs.Kind, cs.X.Tok, o.Line, cs.Model.Tok), map[string]any{"kind": "c03", "case": cs, "text": rd.text})
+				return nil
+			}
 			if !checkBuild(res, "c03", cs.Doc, rd, &cs.X, &o, map[string]any{"kind": "c03", "case": cs, "text": rd.text}) {
 				return nil
 			}
